@@ -55,6 +55,7 @@ class Con(T):
 @dataclass(frozen=True)
 class Uni(T):
     alts: Tuple[T, ...]
+    pep604: bool = False  # written A | B (types.UnionType) instead of typing.Union[A, B]
 
 
 def Opt(t: T) -> Uni:
